@@ -1,7 +1,8 @@
 (* Props/C04.v — property C04: ignore files mean what git says they mean.
    Only statements; every proof is one `exact` (or a vm_compute witness).  Check lines pin the statements. *)
 From RG Require Import Base.Bytes Model.Glob Model.GlobSet Spec.GlobSem Spec.GlobSetSem Model.Gitignore Spec.GitSem
-  Proofs.GlobPathProofs Proofs.GitignoreProofs Proofs.GitSemProofs.
+  Spec.GitGrammar Spec.GitLineClass
+  Proofs.GlobPathProofs Proofs.GitignoreProofs Proofs.GitSemProofs Proofs.GitSegProofs Proofs.GitLineProofs.
 
 (* 1. within one ignore file the LAST line whose glob matches the entry (and whose directory-only flag admits
       it) decides, `!` lines re-include: Gitignore::matched_stripped (glob set, seven strategies, reverse scan)
@@ -45,20 +46,90 @@ Theorem pruned_below_ignored_dir :
 Proof. exact pruned_below_ignored_dir_proof. Qed.
 Print Assumptions pruned_below_ignored_dir.
 
-(* 5. PARTIAL (one pattern class of the documented grammar): a separator-free literal name in an ignore file
-      — rewritten by add_line to `**/name` — matches exactly where git's component semantics says: the last
-      component at any depth.  The remaining classes (wildcards and classes inside components, anchored
-      patterns, `**` in the three positions) are stated by Spec/GitSem.v and TESTED three-way (extracted
-      GitSem vs real git; rg model vs real rg; rg vs git), not proved. *)
-Theorem gitignore_line_eq_git_partial :
-  forall (o : gopts) (l : bytes) (comps : list bytes),
-    case_insensitive o = false -> l <> [] -> has 47 l = false ->
-    comps <> [] -> Forall comp_ok comps ->
-    tmatch o (TRecPrefix :: map TLit l) (join comps) = cmatch false [CDStar; CSimple (map WLit l)] comps.
-Proof. exact basename_pattern_eq_git_proof. Qed.
-Print Assumptions gitignore_line_eq_git_partial.
+(* 5. PATTERN LEVEL, the whole documented grammar: a pattern body is a '/'-separated list of segments, each a
+      component pattern (literals, `?`, `*`, bracket classes that cannot match '/') or `**`; no two `**` in a
+      row, no empty component; [unanchored] = no separator at the beginning or in the middle (one component,
+      tried at any depth).  For every such pattern, every option set with literal_separator on (case folding
+      on or off) and every non-empty path of separator-free components: the regex meaning of the tokens
+      ripgrep produces for it (rg_tokens: implicit `**/`, `/**/` as one token, trailing `/**` as `/**/*`)
+      on the '/'-joined path = git's component-wise matching (`**` spans whole components, `* ? [..]` stay
+      inside one component, a leading or inner slash anchors). *)
+Theorem gitignore_pattern_eq_git :
+  forall (o : gopts) (ci : bool), case_insensitive o = ci -> literal_separator o = true ->
+  forall (unanchored : bool) (segs : list seg) (comps : list bytes),
+    segs_ok unanchored segs = true -> comps <> [] -> Forall comp_ok comps ->
+    tmatch o (rg_tokens unanchored segs) (join comps) = cmatch ci (git_cpats unanchored segs) comps.
+Proof. exact seg_sem_eq. Qed.
+Print Assumptions gitignore_pattern_eq_git.
 
-(* the shapes of theorem 5 are what the two line readers produce, e.g. for the line `foo.` (defect D3) *)
+(* 5b. LINE LEVEL: for every line in the class [line_class] (an executable predicate: ripgrep's add_line and
+       git's line reader are both run; either both ignore the line, or add_line's glob has exactly the tokens of
+       the well-formed segment form of git's reading and the negation / directory-only flags agree) and every
+       entry: what ripgrep's rewritten glob (read through tmatch) says about the entry = what GitSem says
+       (Some true = excluded, Some false = re-included by `!`, None = the line does not apply; trailing-slash
+       lines apply to directories only).  That every line of the documented grammar IS in the class is checked
+       by running the predicate on every generated line (tested, see notes/C04.md: missing lemma
+       grammar_lines_in_class), and on the examples below. *)
+Theorem gitignore_line_eq_git :
+  forall (ci : bool) (line : bytes) (rel : list bytes) (is_dir : bool),
+    line_class ci line = true -> rel <> [] -> Forall comp_ok rel ->
+    rg_line re_spec ci line rel is_dir = git_line ci line rel is_dir.
+Proof. exact line_class_sound_proof. Qed.
+Print Assumptions gitignore_line_eq_git.
+
+(* 5c. FILE LEVEL: an ignore file whose lines are in the class gives git's verdict (last matching line wins,
+       `!` re-includes, directory-only lines skip files), through the real pipeline: add_line per line, glob
+       set with its seven strategies, reverse scan. *)
+Theorem gitignore_file_eq_git :
+  forall (ci : bool) (lines : list bytes) (rel : list bytes) (is_dir : bool),
+    lines_in_class ci lines -> rel <> [] -> Forall comp_ok rel ->
+    verdict_opt (matched_stripped re_spec (add_lines ci lines) (join rel) is_dir) = file_verdict ci lines rel is_dir.
+Proof. exact file_eq_git_proof. Qed.
+Print Assumptions gitignore_file_eq_git.
+
+(* 5d. TREE LEVEL: any ignore files at any levels (lines in the class), any entry path of separator-free
+       components: the walker model visits the entry iff git leaves it unignored — composing the line theorem
+       with last-match-wins, directory-only, "a deeper ignore file overrides a shallower one" (nearest first)
+       and "nothing beneath an ignored directory is visited".  Hence for every finite tree (list of entries)
+       the listing of the walker model is git's listing.
+       PARTIAL with respect to the target "every line of the documented grammar": the hypothesis is membership
+       of every line in the executable class line_class.  Missing lemma (stated, not proved; tested on every
+       generated line, see coverage line_class in evidence/C04.json):
+         grammar_lines_in_class : forall ci gl, gline_ok gl = true -> line_class ci (render_line gl) = true
+       i.e. both line readers on the text of a grammar line produce the segment form.  Its glob-parser half is
+       proved (Props/C12.v parse_documented_syntax); the add_line wrapper (blank trimming, `!`, `/`, trailing
+       `/`, `**/` and `/*` rewriting) and git's reader on rendered text are not. *)
+Theorem rg_model_visited_eq_git_visited_partial :
+  forall (ci : bool) (igs : list (list bytes * list bytes)) (path : list bytes) (is_dir : bool),
+    igs_in_class ci igs -> Forall comp_ok path ->
+    visited re_spec (parse_igs ci igs) path is_dir = git_visited ci igs path is_dir.
+Proof. exact tree_rg_eq_git_proof. Qed.
+Print Assumptions rg_model_visited_eq_git_visited_partial.
+
+Theorem rg_model_listing_eq_git_listing_partial :
+  forall (ci : bool) (igs : list (list bytes * list bytes)) (entries : list (list bytes * bool)),
+    igs_in_class ci igs -> Forall (fun e => Forall comp_ok (fst e)) entries ->
+    filter (fun e => visited re_spec (parse_igs ci igs) (fst e) (snd e)) entries =
+    filter (fun e => git_visited ci igs (fst e) (snd e)) entries.
+Proof. exact tree_listing_eq_git_proof. Qed.
+Print Assumptions rg_model_listing_eq_git_listing_partial.
+
+(* every construct of the documented grammar on a representative line is in the class (both case modes), and the
+   excluded shapes are not: class admitting '/', braces, "//", unclosed class *)
+Definition ascii_line (l : list nat) : bytes := map N.of_nat l.
+Example ex_lines_in_class :
+  forallb (fun l => line_class false l && line_class true l)
+    [ [97;47;42]%N (* a/* *); [33;118;47;107;47]%N (* !v/k/ *); [42;46;97]%N (* *.a *);
+      [42;42;47;97;47;98]%N (* **/a/b *); [97;47;42;42;47;98]%N (* a/**/b *); [97;47;42;42]%N (* a/** *);
+      [47;97]%N (* /a *); [102;92;32;32]%N (* f\ + blank *); [91;97;98;93;99]%N (* [ab]c *); [92;35;97]%N (* \#a *);
+      [35;120]%N (* #x *); [47;42;42]%N (* /** *); [97;63;98;47]%N (* a?b/ *); [97;91;97;45;99;93;42;47;63;120]%N;
+      [92;33;97]%N (* \!a *); [97;92;42;98]%N (* a\*b *); [33]%N (* ! *); [97;92]%N (* dangling *) ] = true
+  /\ forallb (fun l => negb (line_class false l))
+    [ [97;91;33;98;93;99]%N (* a[!b]c *); [123;97;44;98;125]%N (* {a,b} *);
+      [97;47;47;98]%N (* a//b *); [91]%N ] = true.
+Proof. vm_compute. auto. Qed.
+
+(* the two line readers on the line `foo.` (defect D3) *)
 Example ex_line_shapes :
   add_line false [102; 111; 111; 46]%N =
     LGlob (mk_iglob false false [42; 42; 47; 102; 111; 111; 46]%N
@@ -105,8 +176,16 @@ Check file_last_match_wins :
   forall (globs : list iglob) (path : bytes) (is_dir : bool),
     matched_stripped re_spec globs path is_dir =
     verdict_of (find (fun g => line_hit g path is_dir) (rev globs)).
-Check gitignore_line_eq_git_partial :
-  forall (o : gopts) (l : bytes) (comps : list bytes),
-    case_insensitive o = false -> l <> [] -> has 47 l = false ->
-    comps <> [] -> Forall comp_ok comps ->
-    tmatch o (TRecPrefix :: map TLit l) (join comps) = cmatch false [CDStar; CSimple (map WLit l)] comps.
+Check gitignore_pattern_eq_git :
+  forall (o : gopts) (ci : bool), case_insensitive o = ci -> literal_separator o = true ->
+  forall (unanchored : bool) (segs : list seg) (comps : list bytes),
+    segs_ok unanchored segs = true -> comps <> [] -> Forall comp_ok comps ->
+    tmatch o (rg_tokens unanchored segs) (join comps) = cmatch ci (git_cpats unanchored segs) comps.
+Check gitignore_line_eq_git :
+  forall (ci : bool) (line : bytes) (rel : list bytes) (is_dir : bool),
+    line_class ci line = true -> rel <> [] -> Forall comp_ok rel ->
+    rg_line re_spec ci line rel is_dir = git_line ci line rel is_dir.
+Check rg_model_visited_eq_git_visited_partial :
+  forall (ci : bool) (igs : list (list bytes * list bytes)) (path : list bytes) (is_dir : bool),
+    igs_in_class ci igs -> Forall comp_ok path ->
+    visited re_spec (parse_igs ci igs) path is_dir = git_visited ci igs path is_dir.
